@@ -72,14 +72,15 @@ def _relerr(a, b):
     return float(np.max(np.abs(a - b) / (1e-300 + np.maximum(np.abs(a), np.abs(b)))))
 
 
-def _abs_scaled(a, b):
-    """max abs difference relative to the largest magnitude of the arrays"""
+def _abs_scaled(a, b, floor=0.0):
+    """max abs difference relative to the largest magnitude of the arrays (or `floor`, the size of
+    the terms whose cancellation produced them)"""
     a = np.asarray(a, dtype=float); b = np.asarray(b, dtype=float)
     if a.shape != b.shape or not (np.all(np.isfinite(a)) and np.all(np.isfinite(b))):
         return np.inf
     if a.size == 0:
         return 0.0
-    return float(np.max(np.abs(a - b)) / max(1e-300, float(np.max(np.abs(a))), float(np.max(np.abs(b)))))
+    return float(np.max(np.abs(a - b)) / max(1e-300, floor, float(np.max(np.abs(a))), float(np.max(np.abs(b)))))
 
 
 def _cov_err(C, Cexp, full):
@@ -545,6 +546,7 @@ class C13(PropertyCheck):
         if fail is None and (W.min() < 0 or abs(W.sum() - 1) > 1e-9):
             fail = f"_Mstep weights {W.tolist()} are not on the simplex"
         a = np.array(c["a"]); t = np.array(c["t"]); p = c["perm"]
+        mag = float(np.abs(M).max() + np.abs(t).max()) if np.all(np.isfinite(M)) else 0.0
         if fail is None:
             W2, M2, C2 = fit(x, like[:, p])
             if max(_abs_scaled(W2, W[p]), _abs_scaled(M2, M[p]), _abs_scaled(C2, C[p])) > 1e-9:
@@ -552,7 +554,7 @@ class C13(PropertyCheck):
         # responsibilities of every sample are positive-summing here, populations >= tiny unless empty-comp
         if fail is None:
             W3, M3, C3 = fit(x + t, like)
-            if max(_abs_scaled(W3, W), _abs_scaled(M3, M + t)) > 1e-8 or _cov_err(C3, C, full)[0] > 1e-6:
+            if max(_abs_scaled(W3, W), _abs_scaled(M3, M + t, mag)) > 1e-8 or _cov_err(C3, C, full)[0] > 1e-6:
                 fail = (f"_Mstep ({pt}): translating the data by {t.tolist()} gives means {M3.tolist()} "
                         f"(expected {(M + t).tolist()}) / covariances changed by {_abs_scaled(C3, C):.2e}")
         if fail is None:
@@ -583,7 +585,7 @@ class C13(PropertyCheck):
                     Wv, Mv, Cv = fit(x, r, VBGMM)
                     Wv2, Mv2, Cv2 = fit(x * a + t, r, VBGMM)
                     Wv3, Mv3, Cv3 = fit(x, r[:, p], VBGMM)
-                    if max(_abs_scaled(Wv2, Wv), _abs_scaled(Mv2, Mv * a + t)) > 1e-8 or \
+                    if max(_abs_scaled(Wv2, Wv), _abs_scaled(Mv2, Mv * a + t, float(np.abs(Mv * a).max() + np.abs(t).max()))) > 1e-8 or \
                             _cov_err(Cv2, Cv * (a[:, None] * a[None, :]), True)[0] > 1e-6:
                         fail = "VBGMM._Mstep is not equivariant under per-axis affine maps of the data"
                     elif max(_abs_scaled(Wv3, Wv[p]), _abs_scaled(Mv3, Mv[p]), _abs_scaled(Cv3, Cv[p])) > 1e-9:
